@@ -2,7 +2,7 @@
    event, the timer rule that follows an RPC, and the role change
    (release of the old role, init of the new one).  Executable, no proofs. *)
 From Coq Require Import List NArith ZArith Bool.
-From Verif Require Import Base.Bytes Codec.Messages Node.Types Node.Handlers Node.Leader.
+From Verif Require Import Base.Bytes Codec.Messages Node.Types Node.Handlers Node.Leader Node.Snap.
 Import ListNotations.
 Open Scope N_scope.
 
@@ -15,7 +15,10 @@ Inductive nevent :=
 | EVoteResult (term result : N)
 | EDisconnected (nid : N)
 | ERestart (keep : N)
-| ELeader (e : levent).
+| ELeader (e : levent)
+| ETask (t : ntask)          (* a task or client batch handled in any role (leaders: only TTakeSnapshot / TShutdown) *)
+| ESnapRun                   (* the snapshot goroutine runs (not an iteration of stateLoop) *)
+| ESnapTaken.                (* snapTakenCh case *)
 
 (* what the peer / caller sees *)
 Record nobs := mkObs {
@@ -100,4 +103,17 @@ Definition model_event (opt : options) (s : nstate) (ev : nevent) : outcome (nob
         w <~ leader_event_out opt s e ;;
         finish opt old 0 0 0 w
       else Done (no_obs, s)
+  | ETask t =>
+      w <~ node_task s t ;;
+      (* executeTask is followed by: if Follower and electionAborted then resetTimer *)
+      let (s1, out) := w in
+      let s2 := if (st_role s1 =? Follower) && st_aborted s1 &&
+                   match t with TClient _ | TShutdown => false | _ => true end
+                then follower_reset_timer s1 else s1 in
+      finish opt old 0 0 0 (s2, out)
+  | ESnapRun =>
+      s1 <~ snapshot_run s ;; Done (no_obs, s1)
+  | ESnapTaken =>
+      w <~ on_snapshot_taken opt s ;;
+      finish opt old 0 0 0 w
   end.
